@@ -1,6 +1,213 @@
-"""C15 rules (placeholder: fail-closed until the rules are implemented)."""
-from ..loader import AnalysisError
+"""C15 - clean deletes only unprotected declared outputs of the selected targets."""
+import ast
+
+from ..index import FuncInfo, dotted, walk_no_nested, loc
+from ..paths import NEXT, RAISE, RETURN, Explorer, Semantics, State, fmt_trace
+from .persist import _calls, rule_close_writes, rule_exit_persists
+
+
+class CleanSem(Semantics):
+    """The clean command body: selection flags, prompt, and the delete/invalidate effects with their provenance."""
+
+    loop_bound = 1
+
+    def __init__(self, ctx, finfo, deleting, invalidating):
+        super().__init__(ctx.index, finfo)
+        self.ctx = ctx
+        self.deleting = deleting  # callee keys that reach FS_DELETE
+        self.events = []
+        self.loops = {}  # loop var -> iter text
+        for n in walk_no_nested(finfo.node):
+            if isinstance(n, ast.For) and isinstance(n.target, ast.Name):
+                self.loops[n.target.id] = ast.unparse(n.iter)
+
+    def domain(self, text):
+        if text in ("targets",):
+            return ("EMPTY", "NONEMPTY")
+        if text in ("force", "all"):
+            return (False, True)
+        return None
+
+    def truthy(self, v):
+        return v not in ("EMPTY", False, None)
+
+    def may_raise(self, node, state):
+        out = []
+        if isinstance(node, ast.AST):
+            for c in _calls(node):
+                if isinstance(c.func, (ast.Name, ast.Attribute)) and self.index.canon(c.func, self.module) == "click.confirm":
+                    if any(k.arg == "abort" and isinstance(k.value, ast.Constant) and k.value.value is True for k in c.keywords):
+                        out.append("click.Abort")
+        return out
+
+    def effect(self, node, state):
+        if isinstance(node, tuple):
+            return state
+        s = state
+        for c in _calls(node):
+            cn = self.index.canon(c.func, self.module) if isinstance(c.func, (ast.Name, ast.Attribute)) else None
+            if cn == "click.confirm":
+                ab = any(k.arg == "abort" and isinstance(k.value, ast.Constant) and k.value.value is True for k in c.keywords)
+                s = s.with_fact("prompted", "abort" if ab else "noabort").note(node, "confirmation prompt")
+            callees = [x for x in self.ctx.resolver.callees(c, self.finfo, {}) if isinstance(x, FuncInfo)]
+            is_delete = any(x.key in self.deleting for x in callees) or cn in ("os.remove", "os.unlink", "shutil.rmtree") or \
+                (isinstance(c.func, ast.Attribute) and c.func.attr in ("unlink", "rmdir"))
+            is_inval = isinstance(c.func, ast.Attribute) and c.func.attr == "invalidate"
+            if is_delete or is_inval:
+                self.events.append(("delete" if is_delete else "invalidate", c, s))
+                s = s.with_fact("effects", s.facts.get("effects", 0) + 1).note(node, "delete" if is_delete else "invalidate")
+        return s
+
+    def test_hook(self, expr, state):
+        e, neg = expr, False
+        if isinstance(e, ast.UnaryOp) and isinstance(e.op, ast.Not):
+            e, neg = e.operand, True
+        if isinstance(e, ast.Compare) and len(e.ops) == 1 and isinstance(e.ops[0], (ast.In, ast.NotIn)):
+            right = ast.unparse(e.comparators[0])
+            if right.endswith(".protected()"):
+                inn = isinstance(e.ops[0], ast.In)
+                key = f"protected:{dotted(e.left)}:{right}"
+                return [((True ^ neg), state.with_fact(key, inn)), ((False ^ neg), state.with_fact(key, not inn))]
+        return None
+
+    def enter_loop(self, node, state):
+        return True, True
 
 
 def run(ctx):
-    raise AnalysisError("rules for C15 not implemented yet")
+    idx = ctx.index
+    res = ctx.resolver
+    clean = idx.func("gwf.plugins.clean:clean")
+    ccon = f"{clean.module.relpath}::{clean.qual}"
+
+    # ---------------- R1 provenance of every delete
+    r1 = ctx.rule("R1", "files are deleted only by clean (unprotected flattened outputs of matched targets) and by run's log cleaning", min_instances=3)
+    deleters = {}
+    for f in idx.functions.values():
+        for n in walk_no_nested(f.node):
+            for e in res.node_effects(n, f):
+                if e.kind == "FS_DELETE":
+                    deleters.setdefault(f.key, []).append(e)
+    allowed = {"gwf.plugins.clean:_delete_file", "gwf.plugins.clean:clean", "gwf.plugins.run:clean_logs"}
+    for key, effs in sorted(deleters.items()):
+        f = idx.functions[key]
+        r1.check(key in allowed, f"{f.module.relpath}::{f.qual}::delete", f"{len(effs)} delete site(s) in an owner",
+                 f"{f.qual} deletes files ({effs[0].detail}): only `gwf clean` and the log cleaning of `gwf run` may remove anything", effs[0].where)
+    if not any(k.startswith("gwf.plugins.clean:") for k in deleters):
+        r1.violation(ccon + "::delete", "clean never deletes anything: unprotected outputs of selected targets are not removed", clean.where)
+    # _delete_file deletes its own parameter
+    df = idx.maybe_func("gwf.plugins.clean:_delete_file")
+    deleting = set()
+    if df is not None:
+        deleting.add(df.key)
+        p = df.positional_params()[0]
+        ok = all(e.node.args and dotted(e.node.args[0]) == p for e in deleters.get(df.key, []))
+        r1.check(ok and deleters.get(df.key), f"{df.module.relpath}::{df.qual}", "removes exactly the path it is given", "_delete_file removes something else than its argument", df.where)
+    sem = CleanSem(ctx, clean, deleting, None)
+    ex = Explorer(sem)
+    outs = ex.run(State())
+    dels = [e for e in sem.events if e[0] == "delete"]
+    invs = [e for e in sem.events if e[0] == "invalidate"]
+    if not dels:
+        r1.violation(ccon + "::delete-site", "no delete call found in the clean command", clean.where)
+    for _k, call, st in dels:
+        arg = call.args[0] if call.args else None
+        var = dotted(arg) if arg is not None else None
+        it = sem.loops.get(var)
+        where = loc(call, clean.module)
+        if it is None or not it.endswith(".flattened_outputs()"):
+            r1.violation(ccon + "::delete-arg", f"the deleted path `{ast.unparse(arg) if arg is not None else None}` does not range over target.flattened_outputs() "
+                         f"(it ranges over `{it}`): inputs, logs or other files could be removed", where, fmt_trace(st, clean.module))
+            continue
+        tvar = it[: -len(".flattened_outputs()")]
+        tit = sem.loops.get(tvar)
+        if tit != "matches":
+            r1.violation(ccon + "::delete-target", f"outputs are deleted for `{tvar}` ranging over `{tit}`, not over the selected matches", where)
+            continue
+        key = f"protected:{var}:{tvar}.protected()"
+        if st.facts.get(key) is not False:
+            r1.violation(ccon + "::protected", "an output can be deleted on a path where `path in target.protected()` was not established to be false: "
+                         "protected files are removed", where, fmt_trace(st, clean.module))
+        else:
+            r1.ok(ccon + "::delete", f"delete({var}) for {var} in {it}, {tvar} in matches, not protected", where)
+
+    # ---------------- R2 selection
+    r2 = ctx.rule("R2", "selection: name filter iff targets given; endpoints excluded unless --all", min_instances=3)
+    filt = {}
+    for n in walk_no_nested(clean.node):
+        if isinstance(n, ast.If):
+            for c in _calls(n):
+                if isinstance(c.func, ast.Attribute) and c.func.attr == "append" and c.args and isinstance(c.args[0], ast.Call):
+                    filt[dotted(c.args[0].func)] = (ast.unparse(n.test), c.args[0])
+    nf = filt.get("NameFilter")
+    r2.check(nf is not None and nf[0] == "targets" and any(k.arg == "patterns" and dotted(k.value) == "targets" for k in nf[1].keywords),
+             ccon + "::NameFilter", "NameFilter(patterns=targets) iff targets given", f"the name filter is not applied exactly when targets are given ({nf[0] if nf else None})", clean.where)
+    ef = filt.get("EndpointFilter")
+    ok = ef is not None and ef[0] == "not all"
+    if ok:
+        kws = {k.arg: ast.unparse(k.value) for k in ef[1].keywords}
+        ok = kws.get("endpoints") == "graph.endpoints()" and kws.get("mode") == "'exclude'"
+    r2.check(ok, ccon + "::EndpointFilter", "EndpointFilter(graph.endpoints(), mode='exclude') iff not --all",
+             "without --all the outputs of endpoint targets must be kept: the endpoint exclusion filter is missing, inverted or not tied to `not all`", clean.where)
+    m_ok = any(isinstance(n, ast.Assign) and dotted(n.targets[0]) == "matches" and "filter_generic(" in ast.unparse(n.value) and "graph" in ast.unparse(n.value)
+               and "filters" in ast.unparse(n.value) for n in walk_no_nested(clean.node))
+    r2.check(m_ok, ccon + "::matches", "matches = filter_generic(targets=graph, filters=filters)", "the matched targets are not computed by filter_generic over the graph", clean.where)
+    epf = idx.func("gwf.filtering:EndpointFilter.predicate")
+    pol = {}
+    for n in walk_no_nested(epf.node):
+        if isinstance(n, ast.If) and isinstance(n.test, ast.Compare) and isinstance(n.test.comparators[0], ast.Constant):
+            for s_ in n.body:
+                if isinstance(s_, ast.Return):
+                    pol[n.test.comparators[0].value] = ast.unparse(s_.value)
+    r2.check(pol.get("exclude") == "target not in self.endpoints", f"{epf.module.relpath}::{epf.qual}", "exclude drops endpoints", f"EndpointFilter exclude polarity is {pol.get('exclude')}", epf.where)
+
+    # ---------------- R3 prompt dominates effects
+    r3 = ctx.rule("R3", "without targets and --force the confirmation prompt (abort on decline) precedes every effect")
+    bad = None
+    for kind, call, st in sem.events:
+        t = st.vars.get("targets", frozenset(["EMPTY", "NONEMPTY"]))
+        f_ = st.vars.get("force", frozenset([False, True]))
+        need = "EMPTY" in t and False in f_
+        if need and st.facts.get("prompted") != "abort":
+            bad = (kind, call, st)
+            break
+    r3.check(bad is None and sem.events, ccon + "::prompt", f"{len(sem.events)} effect state(s), all after the prompt when it is required",
+             f"a {bad[0] if bad else 'n effect'} is reachable with no targets and no --force before the user confirmed (or the prompt does not abort on decline)",
+             loc(bad[1], clean.module) if bad else clean.where, fmt_trace(bad[2], clean.module) if bad else None)
+    pr = [c for c in _calls(clean.node) if isinstance(c.func, (ast.Name, ast.Attribute)) and idx.canon(c.func, clean.module) == "click.confirm"]
+    r3.check(bool(pr), ccon + "::prompt-exists", "confirmation prompt present", "clean has no confirmation prompt", clean.where)
+
+    # ---------------- R4 every match is invalidated, every unprotected output removed
+    r4 = ctx.rule("R4", "every matched target's spec hash is forgotten and every unprotected output goes through the delete", min_instances=3)
+    inv_ok = False
+    for _k, call, st in invs:
+        a = dotted(call.args[0]) if call.args else None
+        if sem.loops.get(a) == "matches":
+            inv_ok = True
+    r4.check(inv_ok, ccon + "::invalidate", "spec_hashes.invalidate(target) for target in matches", "the spec hashes of the cleaned targets are not invalidated one by one", clean.where)
+    # the only way to skip an output is the protected branch
+    skips = [n for n in walk_no_nested(clean.node) if isinstance(n, (ast.Continue, ast.Break))]
+    bad_skip = []
+    for n in skips:
+        p = n._parent
+        ok = isinstance(p, ast.If) and ".protected()" in ast.unparse(p.test) and isinstance(n, ast.Continue)
+        if not ok:
+            bad_skip.append(n)
+    r4.check(not bad_skip, ccon + "::skips", "the protected branch is the only skip in the output loop",
+             "an output can be skipped (continue/break) for another reason than being protected: existing unprotected outputs would survive", loc(bad_skip[0], clean.module) if bad_skip else clean.where)
+    with_ok = any(isinstance(n, ast.With) and any("get_spec_hashes(" in ast.unparse(i.context_expr) for i in n.items) and any(
+        isinstance(c.func, ast.Attribute) and c.func.attr == "invalidate" for c in _calls(n)) for n in walk_no_nested(clean.node))
+    r4.check(with_ok, ccon + "::with", "invalidations happen inside the with-block of the hash store (saved on exit)",
+             "the invalidations are not enclosed by the with-block of the spec-hash store", clean.where)
+    rule_exit_persists(ctx, r4)
+    rule_close_writes(ctx, r4)
+    # FileSpecHashes.invalidate removes the record of target.name, tolerating a missing one
+    inv = idx.func("gwf.core:FileSpecHashes.invalidate")
+    txt = ast.unparse(inv.node)
+    r4.check(("del self.hashes[target.name]" in txt and "KeyError" in txt) or "self.hashes.pop(target.name, None)" in txt, f"{inv.module.relpath}::{inv.qual}",
+             "removes the record stored under target.name (missing record tolerated)", "FileSpecHashes.invalidate does not remove the record of target.name", inv.where)
+
+    # ---------------- R5 protection is spelling-insensitive (shared with C03)
+    r5 = ctx.rule("R5", "protected paths and outputs are normalised by the same function on every path")
+    from .c03 import rule_norm_path
+    rule_norm_path(ctx, r5)
